@@ -762,7 +762,7 @@ func checkVerifierHelpers(c *Ctx, verifier, info, pad *ssa.Function) {
 		for _, b := range info.Blocks {
 			for _, ins := range b.Instrs {
 				lk, ok := ins.(*ssa.Lookup)
-				if !ok || !lk.CommaOk || !strings.Contains(w.Expr(lk.X), "yubiattest.hashPrefixes") {
+				if !ok || !lk.CommaOk || !exprIsGlobalOfType(w, w.Expr(lk.X), attestPkg, "map[crypto.Hash][]byte") {
 					continue
 				}
 				nLook++
